@@ -1,8 +1,9 @@
 import Mkdb.Model.Engine
+import Mkdb.Generated.Lower
 /-!
 Model of engine/session.go (`Session.ExecQuery`) over several databases: CREATE DATABASE,
 USE, SHOW DATABASES and the dispatch of DDL/DML to the selected database.  Database
-names are compared in lower-cased form (storage/file.go).  One relation service is open at
+names are compared in lower-cased form (storage/file.go: `strings.ToLower`, Unicode aware).  One relation service is open at
 a time: USE of another database closes (flushes) the previous one.
 -/
 namespace Mkdb.Session
@@ -20,14 +21,81 @@ inductive Out where
   | rows (names : List String)       -- SHOW DATABASES
 deriving Repr
 
-def canon (b : Bytes) : String := (nameOfBytes b).toLower
+/-- the second component of the first pair of `ps` whose first component is `r`; `r` if there is none -/
+def lookPairs (r : Nat) : List (Nat × Nat) → Nat
+  | [] => r
+  | p :: ps => if Nat.beq p.1 r then p.2 else lookPairs r ps
 
-/-- `checkDBName` (storage/file.go): the lower-cased name is used as one path element below the data
-directory - not the directory itself or its parent, no path separator or NUL, at most 255 bytes -/
+/-- look `r` up in the first list whose bound (its largest first component) is not below `r` -/
+def lookChunks (r : Nat) : List (Nat × List (Nat × Nat)) → Nat
+  | [] => r
+  | c :: cs => if Nat.ble r c.1 then lookPairs r c.2 else lookChunks r cs
+
+/-- `unicode.ToLower` of the Go library (simple case mapping), from the generated table
+`Mkdb/Generated/Lower.lean`: every code point the library maps to another one is listed there with
+its image (`lowerPairsList`, cut into short lists: `lowerChunks`); every other one is mapped to itself.
+(`DbNames1.lowerRune_listed` / `lowerRune_moved`: this is the listed image on every listed code point
+and moves no other.) -/
+def lowerRune (r : Nat) : Nat := lookChunks r Mkdb.Generated.lowerChunks
+
+/-- is `lo ≤ c ≤ hi` (a continuation byte in the range the first byte allows) -/
+def inRange (c : UInt8) (lo hi : Nat) : Bool := decide (lo ≤ c.toNat) && decide (c.toNat ≤ hi)
+
+/-- `utf8.DecodeRuneInString` (unicode/utf8: tables `first` and `acceptRanges`) on the bytes
+`b0 :: rest`: the code point and its width.  A byte that starts no well-formed sequence - a
+continuation or unused byte, a sequence cut short, an overlong form (C0, C1, E0 80-9F, F0 80-8F), a
+surrogate (ED A0-BF), a value above U+10FFFF (F4 90-BF, F5-FF) - is U+FFFD of width 1. -/
+def decodeRune (b0 : UInt8) (rest : Bytes) : Nat × Nat :=
+  let x := b0.toNat
+  if x < 0x80 then (x, 1)
+  else if x < 0xC2 then (0xFFFD, 1)
+  else if x < 0xE0 then
+    match rest with
+    | b1 :: _ =>
+      if inRange b1 0x80 0xBF then ((x - 0xC0) * 64 + (b1.toNat - 0x80), 2) else (0xFFFD, 1)
+    | _ => (0xFFFD, 1)
+  else if x < 0xF0 then
+    match rest with
+    | b1 :: b2 :: _ =>
+      if inRange b1 (if x = 0xE0 then 0xA0 else 0x80) (if x = 0xED then 0x9F else 0xBF) && inRange b2 0x80 0xBF then
+        ((x - 0xE0) * 4096 + (b1.toNat - 0x80) * 64 + (b2.toNat - 0x80), 3)
+      else (0xFFFD, 1)
+    | _ => (0xFFFD, 1)
+  else if x < 0xF5 then
+    match rest with
+    | b1 :: b2 :: b3 :: _ =>
+      if inRange b1 (if x = 0xF0 then 0x90 else 0x80) (if x = 0xF4 then 0x8F else 0xBF) && inRange b2 0x80 0xBF
+          && inRange b3 0x80 0xBF then
+        ((x - 0xF0) * 262144 + (b1.toNat - 0x80) * 4096 + (b2.toNat - 0x80) * 64 + (b3.toNat - 0x80), 4)
+      else (0xFFFD, 1)
+    | _ => (0xFFFD, 1)
+  else (0xFFFD, 1)
+
+/-- the code points a Go `range` loop over the string sees (`strings.Map`): `skip` bytes of the
+sequence decoded last are still to be passed over -/
+def decodeGo : Nat → Bytes → List Char
+  | _, [] => []
+  | skip + 1, _ :: rest => decodeGo skip rest
+  | 0, b0 :: rest => Char.ofNat (decodeRune b0 rest).1 :: decodeGo ((decodeRune b0 rest).2 - 1) rest
+
+def lowerChar (c : Char) : Char := Char.ofNat (lowerRune c.toNat)
+
+/-- `strings.ToLower` (storage/file.go, engine/session.go): the name decoded as UTF-8 - every byte
+that is part of no well-formed sequence reads as U+FFFD -, every code point mapped by
+`unicode.ToLower`, encoded again.  (For a pure-ASCII name Go takes a byte-wise path with the same
+result.)  The result is the directory name: the identity of the database. -/
+def lowered (b : Bytes) : List Char := (decodeGo 0 b).map lowerChar
+
+def canon (b : Bytes) : String := String.ofList (lowered b)
+
+/-- the bytes of the lowered name (`(canon b).toUTF8`: `DbNames1.toUTF8_canon`) -/
+def canonBytes (b : Bytes) : Bytes := (lowered b).flatMap String.utf8EncodeChar
+
+/-- `checkDBName` (storage/file.go): the LOWER-CASED name is used as one path element below the data
+directory - not the directory itself or its parent, at most 255 bytes, no path separator or NUL -/
 def validDbName (b : Bytes) : Bool :=
-  -- (lower-casing changes none of this for ASCII; a name whose Unicode lower-casing changes its byte
-  -- length around the limit is outside the model)
-  b != [46] && b != [46, 46] && decide (b.length ≤ 255) && !(b.any fun c => c == 47 || c == 0)
+  let n := canonBytes b
+  n != [46] && n != [46, 46] && decide (n.length ≤ 255) && !(n.any fun c => c == 47 || c == 0)
 
 def getDB (s : Sess) (n : String) : Option DB := (s.dbs.find? (·.1 == n)).map (·.2)
 def setDB (s : Sess) (n : String) (db : DB) : Sess :=
